@@ -23,7 +23,14 @@ import (
 // Rand is splitmix64: every random choice of a run derives from VERIF_SEED.
 type Rand struct{ s uint64 }
 
-func NewRand(seed uint64) *Rand { return &Rand{s: seed*0x9E3779B97F4A7C15 + 0x1234567} }
+func NewRand(seed uint64) *Rand {
+	// scramble the seed first: consecutive seeds must not give shifted copies of one stream
+	z := (seed + 0x632BE59BD9B4E019) * 0xD6E8FEB86659FD93
+	z = (z ^ (z >> 32)) * 0xD6E8FEB86659FD93
+	z = (z ^ (z >> 32)) * 0xD6E8FEB86659FD93
+
+	return &Rand{s: z ^ (z >> 32)}
+}
 
 func (r *Rand) Next() uint64 {
 	r.s += 0x9E3779B97F4A7C15
